@@ -19,6 +19,8 @@ CONSTANTS Routing0,    \* routing mode of this configuration
 
 \* values a cfg file cannot spell
 NoLim == -1
+Lim0v == 0
+Lim1 == 1
 Keys121 == <<1, 2, 1>>
 Keys1121 == <<1, 1, 2, 1>>
 Keys111 == <<1, 1, 1>>
@@ -66,7 +68,7 @@ Same == UNCHANGED env
 MCNext ==
   \/ SubmitStep \/ EnvResize \/ EnvDrain \/ EnvCalc \/ (EnvTick /\ Same)
   \/ \E i \in Incs : EnvKill(i)
-  \/ (f.stopreq /\ FactoryStop /\ Same)
+  \/ (f.stopreq /\ FactoryStopBegin /\ Same) \/ (FactoryStopEnd /\ Same)
   \/ (~f.stopreq /\ Same /\ \E o \in Ords(f) : FactoryHandleSup(o))
   \/ (~f.stopreq /\ fsq = <<>> /\ Same /\ \E o \in Ords(f) : FactoryHandle(o))
   \/ \E i \in Incs : (~act[i].kill /\ ~act[i].stop /\ WorkerStart(i) /\ Same)
